@@ -183,8 +183,16 @@ func (s mixState) String() string {
 }
 
 func (r *run) mixed(nTx int) {
+	ext := os.Getenv("VERIF_C08_MIX_EXTERNAL") != "0"
+	if ext {
+		// the externally-owned token of the second part: a fresh FIP20 contract owned by r.owner, registered by governance
+		// with one bridge denomination on eth.  Both are op lines of the unified model, so they come BEFORE the first mixed
+		// transaction (mixed transactions move balances the unified model does not follow)
+		r.deploy(3)
+		r.regerc(3, []int{130})
+	}
 	r.mixedKind(0, nTx)
-	if os.Getenv("VERIF_C08_MIX_EXTERNAL") != "0" {
+	if ext {
 		// round 5: the same on an EXTERNALLY-owned token (kind 1: the module escrows the ERC-20 and mints / burns the coin)
 		r.mixedKind(1, nTx/2)
 	}
@@ -193,10 +201,7 @@ func (r *run) mixed(nTx int) {
 func (r *run) mixedKind(kind, nTx int) {
 	g := 1
 	if kind == 1 {
-		// a fresh FIP20 contract owned by r.owner, registered by governance with one bridge denomination on eth
 		g = 3
-		r.deploy(g)
-		r.regerc(g, []int{100 + 10*g})
 	}
 	ctx := r.ctx()
 	tokenContract := common.BigToAddress(big.NewInt(int64(100 + 10*g))).Hex() // the external contract behind the bridge denomination 100+10g
